@@ -78,7 +78,12 @@ func c15Case(c *Ctx) *Result {
 	r2 := rngFor(c.Seed, "C15-write-only", c.Idx)
 	writeOnly := !blockedWriter && r2.Intn(4) == 0
 	serverReplies := r2.Intn(2) == 0
-	params := map[string]interface{}{"udp": udp, "event": event, "idle_s": idle.Seconds(), "nsess": nsess, "blocked_writer": blockedWriter, "write_only_client": writeOnly}
+	// TCP: a part of the network failures are orderly (FIN at a segment boundary towards one or both ends) instead of resets
+	finDir := ""
+	if !udp && event == "net-failure" {
+		finDir = pick(r2, "", "s2c", "c2s", "both")
+	}
+	params := map[string]interface{}{"udp": udp, "event": event, "idle_s": idle.Seconds(), "nsess": nsess, "blocked_writer": blockedWriter, "write_only_client": writeOnly, "orderly_fin": finDir}
 	c.Out.Start("C15", fmt.Sprintf("C15-close/%d/%d", c.Seed, c.Idx), c.Seed, params)
 	res := &Result{Params: params, Obs: map[string]float64{}}
 	base, _ := mieruGoroutines()
@@ -191,7 +196,17 @@ func c15Case(c *Ctx) *Result {
 				env.Net.SetPlan(func(d *simnet.Datagram) simnet.Decision { return simnet.Decision{Drop: true} })
 			} else {
 				for _, p := range env.Net.Pairs() {
-					p.Reset()
+					switch finDir {
+					case "s2c":
+						p.Fin(simnet.S2C)
+					case "c2s":
+						p.Fin(simnet.C2S)
+					case "both":
+						p.Fin(simnet.S2C)
+						p.Fin(simnet.C2S)
+					default:
+						p.Reset()
+					}
 				}
 			}
 		}
@@ -297,7 +312,7 @@ func c15Case(c *Ctx) *Result {
 			fail("goroutines-remain-after-shutdown", fmt.Sprintf("%d goroutines with mieru frames remain 130 virtual seconds after both ends were stopped, e.g. %s", n-base, sample))
 		}
 	}
-	res.Shape = shapeHash(udp, event, idle, nsess, blockedWriter, writeOnly)
+	res.Shape = shapeHash(udp, event, idle, nsess, blockedWriter, writeOnly, finDir)
 	if sig != "" && udp {
 		res.Witness = hubTrace(env, WireOpts{Users: env.Cfg.Users}, 30)
 	}
